@@ -405,3 +405,419 @@ def r28_stateless_gradient_descent(facts):
                     "earlier updates (each step must be old - learning_rate * g of the *current* gradients)" % (f["name"], f["ty"]))
     c.count("gradient-descent optimizers examined", n)
     return c
+
+
+# ------------------------------------------------------------------ R42
+
+GRAD_READS = ("corgi::array::Array::gradient", "corgi::array::Array::replace_gradient", "corgi::array::Array::gradient_mut")
+
+
+def _mentions_gradient(facts, e, seen=None):
+    """does the expression (or a closure literal inside it) read the gradient slot of an array?"""
+    seen = seen if seen is not None else set()
+    for x in walk(e):
+        if x.get("k") == "Call" and resolved(x) in GRAD_READS:
+            return True
+        if x.get("k") == "Closure" and x["closure"] not in seen:
+            seen.add(x["closure"])
+            cb = facts.body(x["closure"])
+            if cb is not None and _mentions_gradient(facts, facts.root(cb), seen):
+                return True
+    return False
+
+
+def _update_bodies(facts, u):
+    """update, its closures, and the crate-local functions it calls (with their closures)"""
+    from .repr_rules import callees_closure
+    out = []
+    seen = set()
+    for b in callees_closure(facts, u, depth=3):
+        if b is not u and (b.get("impl_self") == ARRAY or (b.get("def") or "").startswith("corgi::array::")):
+            continue        # methods of the array library are not part of the optimizer's control flow (and their variable ids would collide)
+        for nb in facts.nested(b):
+            if nb["def"] not in seen:
+                seen.add(nb["def"])
+                out.append(nb)
+    return out
+
+
+def _gradient_derived_vars(facts, bodies):
+    """variables whose value was read from a gradient slot (lets, pattern bindings of matches / if-lets on such reads), transitively"""
+    g = set()
+    changed = True
+    while changed:
+        changed = False
+        for nb in bodies:
+            for n in walk(facts.root(nb)):
+                srcs = []
+                if n.get("k") == "Block":
+                    for s_ in n["stmts"]:
+                        if s_["s"] == "let" and s_.get("init") is not None:
+                            srcs.append((s_["pat"], s_["init"]))
+                elif n.get("k") == "Match":
+                    for a in n["arms"]:
+                        srcs.append((a["pat"], n["scrutinee"]))
+                elif n.get("k") == "Let":
+                    srcs.append((n["pat"], n["e"]))
+                for pat, init in srcs:
+                    dep = _mentions_gradient(facts, init) or any(x.get("k") in ("VarRef", "UpvarRef") and x["v"] in g for x in walk(init))
+                    if dep:
+                        for v, _, _, _ in F.pat_bindings(pat):
+                            if v not in g:
+                                g.add(v)
+                                changed = True
+    return g
+
+
+def _is_selection_condition(facts, cond, gvars, boolpats):
+    """a condition that can tell a parameter with a gradient from one without: it reads a gradient slot, a value read from one,
+    or a per-parameter Boolean drawn from a mask (a pattern-bound bool, or an element of a Vec<bool> / [bool])"""
+    if _mentions_gradient(facts, cond):
+        return True
+    c0 = strip(cond)
+    if isinstance(c0, dict) and c0.get("k") == "Closure":
+        cb = facts.body(c0["closure"])
+        if cb is not None:
+            return _is_selection_condition(facts, facts.root(cb), gvars, boolpats)
+    for x in walk(cond):
+        if x.get("k") in ("VarRef", "UpvarRef") and (x["v"] in gvars or x["v"] in boolpats):
+            return True
+        if x.get("k") == "Index" and "bool" in (strip(x["e"]).get("ty") or ""):
+            return True
+        if x.get("k") == "Call" and callee(x) == "core::ops::index::Index::index" and x["args"] and "bool" in (strip(x["args"][0]).get("ty") or ""):
+            return True
+    return False
+
+
+def _pattern_bools(facts, bodies):
+    """bool-typed variables bound by loop / closure-parameter / match patterns (mask elements)"""
+    out = set()
+    for nb in bodies:
+        for p in facts.params(nb):
+            if p.get("pat"):
+                for v, _, ty, path in F.pat_bindings(p["pat"]):
+                    if ty in ("bool", "&bool") and (path or nb["kind"] == "Closure"):
+                        out.add(v)
+        for n in walk(facts.root(nb)):
+            fl = F.for_loop_parts(n)
+            if fl:
+                for v, _, ty, _ in F.pat_bindings(fl[1]):
+                    if ty in ("bool", "&bool"):
+                        out.add(v)
+            if n.get("k") == "Match" and not str(n.get("source", "")).startswith("ForLoopDesugar"):
+                for a in n["arms"]:
+                    for v, _, ty, _ in F.pat_bindings(a["pat"]):
+                        if ty in ("bool", "&bool"):
+                            out.add(v)
+            if n.get("k") == "Let":
+                for v, _, ty, _ in F.pat_bindings(n["pat"]):
+                    if ty in ("bool", "&bool"):
+                        out.add(v)
+    return out
+
+
+def _upstream_predicates(facts, nb):
+    """predicates of filter-like adaptors upstream of the iterator adaptor whose closure is nb"""
+    out = []
+    parent = facts.body(nb.get("parent")) if nb["kind"] == "Closure" else None
+    if parent is None:
+        return out
+    for m in walk(facts.root(parent)):
+        if m.get("k") == "Call" and any(strip(a).get("k") == "Closure" and strip(a)["closure"] == nb["def"] for a in m["args"]):
+            chain, src = _chain(m)
+            for cal, node in chain[1:]:
+                if cal in (IT + "filter", IT + "filter_map", IT + "take_while", IT + "skip_while") and len(node["args"]) > 1:
+                    out.append(node["args"][1])
+    return out + _upstream_predicates(facts, parent)
+
+
+def _selection_records(facts, bodies, gvars):
+    """local collections that are filled only for parameters with a gradient (pushes / extends that are gated by a gradient's presence or
+    carry a value read from a gradient), and everything derived from them by lets"""
+    sel = set()
+    PUSHES = ("alloc::vec::Vec::<T, A>::push", "core::iter::traits::collect::Extend::extend", "alloc::vec::Vec::<T, A>::extend_from_slice",
+              "alloc::vec::Vec::<T, A>::insert", "alloc::collections::vec_deque::VecDeque::<T, A>::push_back")
+    for nb in bodies:
+        for n, ctx in F.walk_ctx(facts.root(nb)):
+            if n.get("k") == "Call" and callee(n) in PUSHES and len(n["args"]) >= 2:
+                v = var_of(n["args"][0])
+                if not v:
+                    continue
+                gated = any(sc is not None and (_mentions_gradient(facts, sc) or any(x.get("k") in ("VarRef", "UpvarRef") and x["v"] in gvars for x in walk(sc)))
+                            for sc, _ in F.some_bindings_on_path(ctx))
+                gated = gated or any(_mentions_gradient(facts, cnd) or any(x.get("k") in ("VarRef", "UpvarRef") and x["v"] in gvars for x in walk(cnd))
+                                     for cnd, _ in F.path_facts(ctx))
+                gated = gated or any(_mentions_gradient(facts, a) or any(x.get("k") in ("VarRef", "UpvarRef") and x["v"] in gvars for x in walk(a)) for a in n["args"][1:])
+                gated = gated or any(_is_selection_condition(facts, pr, gvars, set()) for pr in _upstream_predicates(facts, nb))
+                if gated:
+                    sel.add(v)
+    changed = True
+    while changed:
+        changed = False
+        for nb in bodies:
+            for n in walk(facts.root(nb)):
+                pairs = []
+                if n.get("k") == "Block":
+                    for s_ in n["stmts"]:
+                        if s_["s"] == "let" and s_.get("init") is not None:
+                            pairs.append((s_["pat"], s_["init"]))
+                fl = F.for_loop_parts(n)
+                if fl:
+                    pairs.append((fl[1], fl[0]))
+                for pat, init in pairs:
+                    if any(x.get("k") in ("VarRef", "UpvarRef") and x["v"] in sel for x in walk(init)):
+                        for v, _, _, _ in F.pat_bindings(pat):
+                            if v not in sel:
+                                sel.add(v)
+                                changed = True
+    return sel
+
+
+def r42_writeback_gated(facts):
+    """WRITE-BACK-GATED: Optimizer::update overwrites a parameter only under a per-parameter selection (its gradient's presence, or a mask element): a parameter without a gradient - frozen, or not part of this iteration's graph - is left untouched, not re-tracked"""
+    c = Ctx("R42", facts, "Optimizer::update writes back only selected parameters (those that had a gradient)")
+    impls = [b for b in facts.fns() if b.get("impl_trait_def") == "corgi::optimizer::Optimizer" and b.get("name") == "update"]
+    c.floor("Optimizer::update implementations", len(impls), 1)
+    for u in impls:
+        bodies = _update_bodies(facts, u)
+        gvars = _gradient_derived_vars(facts, bodies)
+        boolpats = _pattern_bools(facts, bodies)
+        selvars = _selection_records(facts, bodies, gvars)
+        n_writes = 0
+        for nb in bodies:
+            for n, ctx in F.walk_ctx(facts.root(nb)):
+                if n.get("k") != "Assign":
+                    continue
+                lhs = strip(n["l"])
+                if lhs.get("ty") != ARRAY or lhs.get("k") != "Deref" or not any("&mut corgi::array::Array" in (x.get("ty") or "") for x in walk(lhs)):
+                    continue
+                n_writes += 1
+                inst = "writeback:%s" % u["def"]
+                where = loc(nb, n)
+                gate = None
+                for scrut, pat in F.some_bindings_on_path(ctx):
+                    if scrut is not None and (_mentions_gradient(facts, scrut) or any(x.get("k") in ("VarRef", "UpvarRef") and x["v"] in gvars for x in walk(scrut))):
+                        gate = "inside the Some case of a gradient read"
+                conds = [cnd for cnd, _ in F.path_facts(ctx)] + _upstream_predicates(facts, nb)
+                for fr in ctx:
+                    if fr[0] in ("arm", "after-arm") and isinstance(fr[1], dict) and not str(fr[1].get("source", "")).startswith("ForLoopDesugar"):
+                        conds.append(fr[1]["scrutinee"])
+                for cnd in conds:
+                    if gate is None and _is_selection_condition(facts, cnd, gvars | selvars, boolpats):
+                        gate = "under the per-parameter condition `%s`" % show(cnd)[:50]
+                # the written parameter itself comes out of a collection that only holds selected parameters
+                tv = var_of(lhs)
+                if gate is None and tv in selvars:
+                    gate = "the parameter is taken from a collection filled only for parameters with a gradient"
+                if gate:
+                    c.ok(inst, where, "the parameter is overwritten only where it was selected (%s)" % gate)
+                else:
+                    c.bad(inst, where, "the parameter is overwritten whether or not it had a gradient: a frozen parameter (no gradient) is replaced by a fresh tracked array "
+                                       "and starts training from the next iteration")
+        if n_writes == 0:
+            c.unk("writeback:%s" % u["def"], loc(u, facts.root(u)), "no `*parameter = ..` store found in update or the functions it calls (parameters replaced in another way)")
+    return c
+
+
+# ------------------------------------------------------------------ R43
+
+def r43_gradients_taken_on_every_path(facts):
+    """GRADIENTS-TAKEN: every call of Optimizer::update reaches the code that takes (clears) the parameters' gradients - it is not skipped by an early exit or by a condition on anything but the parameters themselves (a gradient left behind is added to by the next pass)"""
+    c = Ctx("R43", facts, "Optimizer::update takes every live gradient on every path")
+    impls = [b for b in facts.fns() if b.get("impl_trait_def") == "corgi::optimizer::Optimizer" and b.get("name") == "update"]
+    c.floor("Optimizer::update implementations", len(impls), 1)
+    for u in impls:
+        bodies = _update_bodies(facts, u)
+        sites = []
+        for nb in bodies:
+            for n in walk(facts.root(nb)):
+                if n.get("k") == "Call" and resolved(n) == "corgi::array::Array::replace_gradient":
+                    sites.append((nb, n))
+                # `*p.gradient_mut() = None` / `p.gradient_mut().take()`
+                if n.get("k") == "Call" and resolved(n) == "corgi::array::Array::gradient_mut":
+                    sites.append((nb, n))
+        where0 = loc(u, facts.root(u))
+        inst = "take:%s" % u["def"]
+        if not sites:
+            c.bad(inst, where0, "update never takes the parameters' gradients (replace_gradient / gradient_mut): the next backward pass adds to the old gradient and the next step uses the sum")
+            continue
+        # variables derived from the parameter list (loop variables over it, lets, closure parameters of adaptors over it)
+        pv = {v for v, _, ty, _ in param_vars(facts, u) if "corgi::array::Array" in ty}
+        derived = set(pv)
+        for nb in bodies:
+            if nb is not u:
+                for p in facts.params(nb):
+                    if p.get("pat"):
+                        for v, _, ty, _ in F.pat_bindings(p["pat"]):
+                            if "corgi::array::Array" in ty or ty in ("bool", "&bool", "usize"):
+                                derived.add(v)
+        changed = True
+        while changed:
+            changed = False
+            for nb in bodies:
+                for n in walk(facts.root(nb)):
+                    pairs = []
+                    if n.get("k") == "Block":
+                        for s_ in n["stmts"]:
+                            if s_["s"] == "let" and s_.get("init") is not None:
+                                pairs.append((s_["pat"], s_["init"]))
+                    fl = F.for_loop_parts(n)
+                    if fl:
+                        pairs.append((fl[1], fl[0]))
+                    if n.get("k") == "Match":
+                        for a in n["arms"]:
+                            pairs.append((a["pat"], n["scrutinee"]))
+                    if n.get("k") == "Let":
+                        pairs.append((n["pat"], n["e"]))
+                    for pat, init in pairs:
+                        if any(x.get("k") in ("VarRef", "UpvarRef") and x["v"] in derived for x in walk(init)) or _mentions_gradient(facts, init):
+                            for v, _, _, _ in F.pat_bindings(pat):
+                                if v not in derived:
+                                    derived.add(v)
+                                    changed = True
+
+        def about_parameters(e):
+            return _mentions_gradient(facts, e) or any(x.get("k") in ("VarRef", "UpvarRef") and x["v"] in derived for x in walk(e))
+        verdicts = []
+        for nb, n in sites:
+            # conditions on the way from the entry of update to the site: inside the site's own body, then at each enclosing closure / call site
+            foreign = []
+            cur_body, cur_node = nb, n
+            hops = 0
+            ok_chain = True
+            while True:
+                ctx = None
+                for m, cx in F.walk_ctx(facts.root(cur_body)):
+                    if m is cur_node:
+                        ctx = cx
+                if ctx is None:
+                    ok_chain = False
+                    break
+                for cond, truth in F.path_facts(ctx):
+                    if not about_parameters(cond):
+                        foreign.append("`%s` is %s" % (show(cond)[:50], "true" if truth else "false"))
+                for fr in ctx:
+                    if fr[0] in ("arm", "after-arm", "guard") and isinstance(fr[1], dict) and not str(fr[1].get("source", "")).startswith("ForLoopDesugar"):
+                        if not about_parameters(fr[1]["scrutinee"]):
+                            foreign.append("a match on `%s`" % show(fr[1]["scrutinee"])[:40])
+                    if fr[0] == "let-else" and fr[1].get("init") is not None and not about_parameters(fr[1]["init"]):
+                        foreign.append("a let-else on `%s`" % show(fr[1]["init"])[:40])
+                if cur_body is u or hops > 6:
+                    break
+                # go one level up: the closure literal in its parent, or the call of this local function
+                nxt = None
+                if cur_body["kind"] == "Closure":
+                    parent = facts.body(cur_body.get("parent"))
+                    if parent is not None:
+                        for m in walk(facts.root(parent)):
+                            if m.get("k") == "Closure" and m.get("closure") == cur_body["def"]:
+                                nxt = (parent, m)
+                else:
+                    for ob in bodies:
+                        for m in walk(facts.root(ob)):
+                            if m.get("k") == "Call" and resolved(m) == cur_body["def"]:
+                                nxt = (ob, m)
+                if nxt is None:
+                    ok_chain = False
+                    break
+                cur_body, cur_node = nxt
+                hops += 1
+            verdicts.append((nb, n, foreign, ok_chain))
+        good = [v for v in verdicts if v[3] and not v[2]]
+        if good:
+            nb, n, _, _ = good[0]
+            c.ok(inst, loc(nb, n), "the gradient-taking code is reached on every path through update (conditions on the way concern the parameters only)")
+        elif any(v[3] for v in verdicts):
+            nb, n, foreign, _ = [v for v in verdicts if v[3]][0]
+            c.bad(inst, loc(nb, n), "the gradients are taken only when %s: on the other path update returns with the gradients still in place, the next pass adds to them "
+                                    "and the next step uses the sum of two iterations" % "; ".join(sorted(set(foreign))))
+        else:
+            c.unk(inst, where0, "cannot relate the gradient-taking code to the body of update")
+    return c
+
+
+# ------------------------------------------------------------------ R44
+
+def r44_stateless_derivative(facts):
+    """STATELESS-DERIVATIVE: a derivative closure keeps no state that depends on the adjoint it was given: nothing derived from its delta argument is stored into a captured cell (a later pass through the same node would reuse the earlier pass's delta)"""
+    from .facts import is_backward_closure
+    c = Ctx("R44", facts, "derivative closures store nothing adjoint-dependent in captured interior-mutable state")
+    n = 0
+    for cb in facts.closures():
+        if not is_backward_closure(cb):
+            continue
+        n += 1
+        where = "%s:%d" % (F.rel(cb["file"]), cb["sp"][0])
+        cells = [cap for cap in cb.get("captures", []) if cap["walk"]["cells"]]
+        if not cells:
+            c.ok("closure:%s" % cb["def"], where, "captures no interior-mutable state", nontrivial=False)
+            continue
+        ps = [p for p in facts.params(cb) if p.get("pat")]
+        xv = {v for v, _, _, _ in F.pat_bindings(ps[2]["pat"])} if len(ps) >= 3 else set()
+        bodies = facts.nested(cb)
+        # adjoint-derived variables (lets whose initialiser mentions the adjoint)
+        changed = True
+        while changed:
+            changed = False
+            for nb in bodies:
+                for node in walk(facts.root(nb)):
+                    if node.get("k") == "Block":
+                        for s in node["stmts"]:
+                            if s["s"] == "let" and s.get("init") is not None:
+                                vs = {x["v"] for x in walk(s["init"]) if x.get("k") in ("VarRef", "UpvarRef")}
+                                if vs & xv:
+                                    for v, _, _, _ in F.pat_bindings(s["pat"]):
+                                        if v not in xv:
+                                            xv.add(v)
+                                            changed = True
+        cellvars = {cap["v"] for cap in cells}
+        # aliases of the cells: `let mut g = cell.borrow_mut();`
+        for nb in bodies:
+            for node in walk(facts.root(nb)):
+                if node.get("k") == "Block":
+                    for s in node["stmts"]:
+                        if s["s"] == "let" and s.get("init") is not None and s["pat"].get("k") == "Binding":
+                            r_, ch = field_chain(s["init"])
+                            base = var_of(s["init"])
+                            inner = strip(s["init"])
+                            while isinstance(inner, dict) and inner.get("k") == "Call" and inner["args"]:
+                                base = var_of(inner["args"][0]) or base
+                                inner = peel(inner["args"][0])
+                            if base in cellvars:
+                                cellvars.add(s["pat"]["v"])
+
+        def mentions_adjoint(e, seen=None):
+            seen = seen if seen is not None else set()
+            for x in walk(e):
+                if x.get("k") in ("VarRef", "UpvarRef") and x["v"] in xv:
+                    return True
+                if x.get("k") == "Closure" and x["closure"] not in seen:
+                    seen.add(x["closure"])
+                    b2 = facts.body(x["closure"])
+                    if b2 is not None and mentions_adjoint(facts.root(b2), seen):
+                        return True
+            return False
+        verdict = None
+        for nb in bodies:
+            for node in walk(facts.root(nb)):
+                if node.get("k") == "Call" and node["args"]:
+                    recv = node["args"][0]
+                    base = var_of(recv)
+                    inner = peel(recv)
+                    while isinstance(inner, dict) and inner.get("k") == "Call" and inner["args"] and base not in cellvars:
+                        base = var_of(inner["args"][0])
+                        inner = peel(inner["args"][0])
+                    if base in cellvars and len(node["args"]) > 1 and any(mentions_adjoint(a) for a in node["args"][1:]):
+                        verdict = (nb, node)
+                if node.get("k") in ("Assign", "AssignOp"):
+                    base = var_of(node["l"])
+                    if base in cellvars and mentions_adjoint(node["r"]):
+                        verdict = (nb, node)
+        if verdict:
+            c.bad("closure:%s" % cb["def"], loc(verdict[0], verdict[1]),
+                  "the derivative closure stores a value computed from its adjoint into captured state (`%s`): a second pass through this node sees the first pass's delta, "
+                  "so gradients are no longer a linear function of the seed of the current pass" % show(verdict[1])[:70])
+        else:
+            c.ok("closure:%s" % cb["def"], where, "captured cell(s) %s never receive anything computed from the adjoint" % ", ".join(cap["var"] for cap in cells))
+    c.floor("derivative closures", n, 17)
+    return c
